@@ -114,6 +114,9 @@ func genC10(seed uint64, run int, tier string) Scenario {
 		switch r.IntN(4) {
 		case 0:
 			round = []stage{{"phrase", phrasePrompt}}
+			if r.IntN(2) == 0 {
+				sc.Password = "" // key-only setup: no login password configured at all
+			}
 		case 1:
 			round = []stage{{"phrase", phrasePrompt}, {"pass", passPrompt}}
 		default:
